@@ -132,6 +132,7 @@ class CGen(object):
         self.rng = rng
         self.bound = []        # local names in scope (lambda parameters, comprehension variables): int-valued mostly
         self.feat = set()
+        self.comp_depth = 0    # > 0: a comprehension variable is in scope (no unconsumed generator expression there)
 
     # -- leaves
     def int_name(self):
@@ -190,6 +191,8 @@ class CGen(object):
         kind = kind or rng.choice(['list', 'list', 'gen'])
         nclauses = rng.choice([1, 1, 1, 2])
         clauses = []
+        outer_depth = self.comp_depth
+        self.comp_depth += 1
         for ci in range(nclauses):
             r = rng.random()
             if ci > 0 and r < 0.4 and self.bound != saved:
@@ -217,10 +220,14 @@ class CGen(object):
             clauses.append('for %s in %s%s' % (tgt, it, conds))
         elt = self.expr(d + 1)
         self.bound = saved
+        self.comp_depth = outer_depth
         body = '%s %s' % (elt, ' '.join(clauses))
         self.feat.add('genexp' if kind == 'gen' else 'listcomp')
         if kind == 'gen':
-            return rng.choice(['sum(%s)', 'list(%s)', 'sorted(%s)', 'tuple(%s)', 'len(list(%s))', '(%s)']) % body
+            # (a generator object that outlives the comprehension it was created in would see the LAST value of that
+            # comprehension's variables in Python — the model captures by value; see the module docstring)
+            forms = ['sum(%s)', 'list(%s)', 'sorted(%s)', 'tuple(%s)', 'len(list(%s))'] + (['(%s)'] if outer_depth == 0 else [])
+            return rng.choice(forms) % body
         return '[%s]' % body
 
     def lam(self, d):
@@ -228,7 +235,7 @@ class CGen(object):
         rng = self.rng
         saved = list(self.bound)
         npar = rng.choice([0, 1, 1, 2, 2, 3])
-        names = self.fresh(npar + 2)
+        names = self.fresh(npar + 4)
         params = names[:npar]
         ndef = rng.randrange(0, npar + 1) if rng.random() < 0.6 else 0
         # defaults are evaluated in the ENCLOSING scope: biased to use the very name the parameter shadows
@@ -242,8 +249,10 @@ class CGen(object):
         r = rng.random()
         if r < 0.2:
             va = names[npar]
-        if r > 0.8:
-            ko = [names[npar + 1]]
+        if r > 0.7:
+            # keyword-only parameters; a parameter WITH a default may precede one WITHOUT (kw_defaults with holes)
+            ko = names[npar + 1:npar + 1 + rng.choice([1, 2, 2, 3])]
+            self.feat.add('kwonly-%d' % len(ko))
         if rng.random() < 0.1:
             ka = 'kw'
         plist = ['%s=%s' % (nm, defaults[nm]) if nm in defaults else nm for nm in params]
@@ -292,6 +301,10 @@ class CGen(object):
         for nm in ko:
             if nm not in kodef or rng.random() < 0.5:
                 kws.append('%s=%s' % (nm, self.expr(d + 1)))
+        holes = [nm in kodef for nm in ko]
+        if any(holes[i] and not all(holes[i:]) for i in range(len(holes))):
+            self.feat.add('kwonly-default-before-required')
+        rng.shuffle(kws)
         if ka and rng.random() < 0.6:
             kws.append('z=%s' % self.expr(d + 1))
         if args and rng.random() < 0.12:
@@ -374,7 +387,7 @@ def gen_ceval_cases(rng, n):
     cases = []
     g = CGen(rng)
     while len(cases) < n:
-        g.bound, g.feat = [], set()
+        g.bound, g.feat, g.comp_depth = [], set(), 0
         r = rng.random()
         src = g.lam(0) if r < 0.3 else g.comp(0) if r < 0.55 else g.access(0) if r < 0.62 else g.expr(0)
         try:
@@ -409,14 +422,14 @@ HAND_CEVAL = [
 
 def gen_template_cases(rng, n):
     """MarkupTemplate sources that hand the value of an expression to the recorder `rec` (a context function):
-    A `${rec(E)}` in text;  B `py:with="v=E"` then `${rec(v)}`;  C `py:with="a=CONST; q=E"`: the with-variable shadows the
+    A `${rec(E)}` in text;  B `py:with="r_v=E"` then `${rec(r_v)}`;  C `py:with="a=CONST; r_q=E"`: the with-variable shadows the
     context name `a` inside E;  D `py:for="TARGET in SEQ"` with `${rec(E)}` in the body: loop targets (names, pairs) are
     context names inside E.  `expr` / `bind` give the plain expression with the same meaning."""
     from xml.sax.saxutils import escape, quoteattr
     cases = []
     g = CGen(rng)
     while len(cases) < n:
-        g.bound, g.feat = [], set()
+        g.bound, g.feat, g.comp_depth = [], set(), 0
         form = rng.choice('AABCDD')
         bind = {}
         if form == 'D':
@@ -427,8 +440,9 @@ def gen_template_cases(rng, n):
                 names, tgt = [nm], nm
                 seq = g.seq(2)
             g.bound = list(names)
+            g.comp_depth = 1
             e = g.expr(1)
-            g.bound = []
+            g.bound, g.comp_depth = [], 0
             src = '<x xmlns:py="http://genshi.edgewall.org/"><y py:for=%s>${rec(%s)}</y></x>' % (quoteattr('%s in %s' % (tgt, seq)), escape(e))
             expr = '[%s for %s in %s]' % (e, tgt, seq)
         else:
@@ -438,12 +452,12 @@ def gen_template_cases(rng, n):
             if form == 'A':
                 src = '<x>${rec(%s)}</x>' % escape(e)
             elif form == 'B':
-                src = '<x xmlns:py="http://genshi.edgewall.org/" py:with=%s>${rec(v)}</x>' % quoteattr('v=' + e)
+                src = '<x xmlns:py="http://genshi.edgewall.org/" py:with=%s>${rec(r_v)}</x>' % quoteattr('r_v=' + e)
             else:
                 nm = rng.choice(['a', 'x', 'items', 'n'])
                 val = rng.choice([0, 1, 4, [1, 2], [], 'k'])
                 bind = {nm: val}
-                src = '<x xmlns:py="http://genshi.edgewall.org/" py:with=%s>${rec(q)}</x>' % quoteattr('%s=%r; q=%s' % (nm, val, e))
+                src = '<x xmlns:py="http://genshi.edgewall.org/" py:with=%s>${rec(r_q)}</x>' % quoteattr('%s=%r; r_q=%s' % (nm, val, e))
         try:
             ast.parse(expr, mode='eval')
         except SyntaxError:
@@ -459,8 +473,8 @@ HAND_TMPL = [
     ('A', '<x>${rec([x for x in x])}</x>', '[x for x in x]', {}, {'x': [1, 2]}),
     ('A', '<x>${rec((lambda a=a: a)())}</x>', '(lambda a=a: a)()', {}, {'a': 5}),
     ('A', '<x>${rec((lambda *, lo=0, hi=10, x: (lo, hi, x))(lo=1, x=5))}</x>', '(lambda *, lo=0, hi=10, x: (lo, hi, x))(lo=1, x=5)', {}, {}),
-    ('B', '<x xmlns:py="http://genshi.edgewall.org/" py:with="v=d.k">${rec(v)}</x>', 'd.k', {}, {'d': {'$dict': [['k', 1]]}}),
-    ('C', '<x xmlns:py="http://genshi.edgewall.org/" py:with="a=4; q=[a for i in items]">${rec(q)}</x>', '[a for i in items]', {'a': 4}, {'a': 1, 'items': [1, 2]}),
+    ('B', '<x xmlns:py="http://genshi.edgewall.org/" py:with="r_v=d.k">${rec(r_v)}</x>', 'd.k', {}, {'d': {'$dict': [['k', 1]]}}),
+    ('C', '<x xmlns:py="http://genshi.edgewall.org/" py:with="a=4; r_q=[a for i in items]">${rec(r_q)}</x>', '[a for i in items]', {'a': 4}, {'a': 1, 'items': [1, 2]}),
     ('D', '<x xmlns:py="http://genshi.edgewall.org/"><y py:for="u, v in rows">${rec(u + v)}</y></x>', '[u + v for u, v in rows]', {}, {'rows': [[1, 2], {'$tuple': [3, 4]}]}),
     ('D', '<x xmlns:py="http://genshi.edgewall.org/"><y py:for="i in items">${rec((lambda q=i: q + a)())}</y></x>', '[(lambda q=i: q + a)() for i in items]', {}, {'items': [1, 2], 'a': 10}),
     ('A', '<x>${rec(zz)}</x>', 'zz', {}, {}), ('A', '<x>${rec(o.zz)}</x>', 'o.zz', {}, {'o': {'$obj': {}}}),
